@@ -188,11 +188,16 @@ def handle (line : String) : String :=
     | some src, some ws, some t =>
       let find := tableFind t
       let next := Loops.nextOf (widthFn ws)
+      let isName := fun r => (48 ≤ r && r ≤ 57) || (65 ≤ r && r ≤ 90) || (97 ≤ r && r ≤ 122) || r = 95
       let repl : List Int → List Nat :=
         if mode = "wrap" then fun m => [60] ++ Std.slice src (spanOf m).1 (spanOf m).2 ++ [62]
-        else match parseHex (mode.drop 4).toString with
-          | some r => fun _ => r.toList
-          | none => fun _ => []
+        else match mode.splitOn ":" with
+          | ["lit", r] => (match parseHex r with | some r => fun _ => r.toList | none => fun _ => [])
+          | ["tmpl", th, names] =>
+            (match parseHex th, (if names = "none" then some [] else (names.splitOn ",").mapM parseHex) with
+             | some t, some ns => fun m => Model.cxExpand isName t src m (ns.map (·.toList))
+             | _, _ => fun _ => [])
+          | _ => fun _ => []
       toHex (Loops.replaceAll find spanOf next src.toList repl).toArray
     | _, _, _ => "bad-op"
   -- slim Teddy model
